@@ -29,7 +29,6 @@ import (
 	"slices"
 	"strconv"
 	"strings"
-	"time"
 
 	"github.com/bronlabs/bron-crypto/pkg/base/curves/k256"
 	"github.com/bronlabs/bron-crypto/pkg/base/nt/modular"
@@ -194,15 +193,6 @@ type hvBuilder struct {
 	thorough bool
 }
 
-var hvT0 = time.Now()
-
-func hvLap(what string) {
-	if os.Getenv("C12_PROTOS_DEBUG") != "" {
-		fmt.Fprintf(os.Stderr, "LAP %-30s %v\n", what, time.Since(hvT0).Round(time.Millisecond))
-	}
-	hvT0 = time.Now()
-}
-
 func (h *hvBuilder) hrng(stream string, idx int) *vh.Rng { return h.rng("heavy/"+stream, idx) }
 
 func (h *hvBuilder) putSK(desc string, sk *paillier.SecretKey) {
@@ -297,13 +287,23 @@ func (h *hvBuilder) structures(name string, sk *paillier.SecretKey, ct *paillier
 		func(v *numct.Modulus) string { return hvBits(func() int { return hvModulusBits(v) }) })
 	if ct != nil {
 		put(h.builder, "znstar-paillierelement-unknown", name+": ciphertext.Value()", ct.Value(), hvEqPEU,
-			func(v *znstar.PaillierGroupElementUnknownOrder) string { return hvBits(func() int { return hvNP(v.N()) }) })
-		ek, err := ct.Value().LearnOrder(gk)
-		putE(h.builder, "znstar-paillierelement-known", name+": ciphertext.Value().LearnOrder(sk.Group())", ek, err, hvEqPEK)
+			func(v *znstar.PaillierGroupElementUnknownOrder) string {
+				return hvBits(func() int { return hvNP(v.N()) })
+			})
+		if ek, err := ct.Value().LearnOrder(gk); err != nil {
+			sampleError("znstar-paillierelement-known", err)
+		} else {
+			put(h.builder, "znstar-paillierelement-known", name+": ciphertext.Value().LearnOrder(sk.Group())", ek, hvEqPEK,
+				func(v *znstar.PaillierGroupElementKnownOrder) string {
+					return hvBits(func() int { return hvNP(v.N()) })
+				})
+		}
 	}
 	if nonce != nil {
 		put(h.builder, "znstar-rsaelement-unknown", name+": nonce.Value()", nonce.Value(), hvEqREU,
-			func(v *znstar.RSAGroupElementUnknownOrder) string { return hvBits(func() int { return hvNP(v.Modulus()) }) })
+			func(v *znstar.RSAGroupElementUnknownOrder) string {
+				return hvBits(func() int { return hvNP(v.Modulus()) })
+			})
 	}
 }
 
@@ -330,16 +330,22 @@ func (h *hvBuilder) ringPedersen(name string, td *intcom.TrapdoorKey, cks map[ID
 	put(h.builder, "znstar-rsagroup-known", name+": RingPedersenSecretKey().Group()", rg, hvEqRGK,
 		func(v *znstar.RSAGroupKnownOrder) string { return hvBits(func() int { return hvNP(v.Modulus()) }) })
 	put(h.builder, "modular-oddprimefactors", name+": RingPedersenSecretKey().Group().Arithmetic()", rg.Arithmetic(), cborEq[*modular.OddPrimeFactors],
-		func(v *modular.OddPrimeFactors) string { return hvBits(func() int { return hvModulusBits(v.Modulus()) }) })
+		func(v *modular.OddPrimeFactors) string {
+			return hvBits(func() int { return hvModulusBits(v.Modulus()) })
+		})
 	tk, err := td.T().LearnOrder(rg)
 	if err != nil {
 		sampleError("znstar-rsaelement-known", err)
 	} else {
 		put(h.builder, "znstar-rsaelement-known", name+": T().LearnOrder(Group())", tk, hvEqREK,
-			func(v *znstar.RSAGroupElementKnownOrder) string { return hvBits(func() int { return hvNP(v.Modulus()) }) })
+			func(v *znstar.RSAGroupElementKnownOrder) string {
+				return hvBits(func() int { return hvNP(v.Modulus()) })
+			})
 	}
 	put(h.builder, "znstar-rsaelement-unknown", name+": RingPedersenSecretKey().S()", td.S(), hvEqREU,
-		func(v *znstar.RSAGroupElementUnknownOrder) string { return hvBits(func() int { return hvNP(v.Modulus()) }) })
+		func(v *znstar.RSAGroupElementUnknownOrder) string {
+			return hvBits(func() int { return hvNP(v.Modulus()) })
+		})
 	// a commitment with its message and witness
 	r := h.hrng("intcom", 0)
 	ck := td.Export()
@@ -523,8 +529,9 @@ func (h *hvBuilder) proofFac(name string, sk *paillier.SecretKey, ck *intcom.Com
 // ---- entry point ---------------------------------------------------------------------------
 
 // heavySamples returns the Paillier-based samples. quick: one shard / auxiliary information per
-// scheme, the keys and structures of the Lindell17 primary, one 2048-bit and one 3072-bit stored
-// c16 key; thorough: every holder's shard, every flavour of corpus/c16/keys.txt.
+// scheme, the keys and structures of the Lindell17 primary, the nth-root and enc transcripts, one
+// 2048-bit and one 3072-bit stored c16 key (about 2.5 s, half of it decoding the stored files);
+// thorough: every holder's shard, the fac transcript, every flavour of corpus/c16/keys.txt.
 func heavySamples(seed int64, tier string) []Sample {
 	h := &hvBuilder{builder: &builder{seed: seed, reps: 1}, thorough: tier == "thorough"}
 	if h.thorough {
@@ -533,9 +540,7 @@ func heavySamples(seed int64, tier string) []Sample {
 
 	// -- Lindell17 shards (stored trusted-dealer material, 3072-bit Paillier keys)
 	h.group("heavy-lindell17", func() {
-		hvLap("start")
 		m, err := keys.LoadL17[hvP, hvB, hvS]("k256", hvPolicy)
-		hvLap("LoadL17")
 		if err != nil {
 			sampleError("lindell17shard-k256", err)
 			return
@@ -549,7 +554,9 @@ func heavySamples(seed int64, tier string) []Sample {
 			name := fmt.Sprintf("stored lindell17 k256 %s shard of %d", hvPolicy, id)
 			put(h.builder, "lindell17shard-k256", name, sh, func(x, y *hvL17Shard) bool { return x.Equal(y) }, shardFacts)
 			put(h.builder, "lindell17aux-k256", name+": AuxiliaryInfo", &sh.AuxiliaryInfo, func(x, y *lindell17.AuxiliaryInfo) bool { return x.Equal(y) },
-				func(v *lindell17.AuxiliaryInfo) string { return hvBits(func() int { return hvSKBits(v.PaillierSecretKey()) }) })
+				func(v *lindell17.AuxiliaryInfo) string {
+					return hvBits(func() int { return hvSKBits(v.PaillierSecretKey()) })
+				})
 			sk := sh.PaillierSecretKey()
 			h.putSK(name+": PaillierSecretKey()", sk)
 			h.putPK(name+": PaillierSecretKey().Public()", sk.Public())
@@ -568,14 +575,11 @@ func heavySamples(seed int64, tier string) []Sample {
 				}
 			}
 			if i == 0 {
-				hvLap("l17 puts")
 				_, nonces, cts := h.encryptions(name, sk, 0, true)
 				if len(cts) > 1 {
 					h.structures(name, sk, cts[1], nonces[1])
 				}
-				hvLap("l17 enc+structures")
 				h.proofNthRoot(name, sk)
-				hvLap("nthroot")
 			}
 		}
 	})
@@ -583,7 +587,6 @@ func heavySamples(seed int64, tier string) []Sample {
 	// -- CGGMP21 shards (stored trusted-dealer material: Paillier-Blum keys and ring-Pedersen parameters)
 	h.group("heavy-cggmp21", func() {
 		m, err := keys.LoadCggmp[hvP, hvB, hvS]("k256", hvPolicy)
-		hvLap("LoadCggmp")
 		if err != nil {
 			sampleError("cggmp21shard-k256", err)
 			return
@@ -595,7 +598,9 @@ func heavySamples(seed int64, tier string) []Sample {
 			}
 			name := fmt.Sprintf("stored cggmp21 k256 %s shard of %d", hvPolicy, id)
 			put(h.builder, "cggmp21shard-k256", name, sh, func(x, y *hvCgShard) bool { return x.Equal(y) },
-				func(v *hvCgShard) string { return hvBits(func() int { return hvSKBits(v.AuxInfo().PaillierSecretKey()) }) })
+				func(v *hvCgShard) string {
+					return hvBits(func() int { return hvSKBits(v.AuxInfo().PaillierSecretKey()) })
+				})
 			aux := sh.AuxInfo()
 			put(h.builder, "cggmp21aux-k256", name+": AuxInfo()", aux, func(x, y *cggmp21.AuxInfo) bool { return x.Equal(y) },
 				func(v *cggmp21.AuxInfo) string { return hvBits(func() int { return hvSKBits(v.PaillierSecretKey()) }) })
@@ -613,7 +618,6 @@ func heavySamples(seed int64, tier string) []Sample {
 					}
 					h.putPK(fmt.Sprintf("%s: AuxInfo().PaillierPublicKeys()[%d]", name, p), aux.PaillierPublicKeys()[p])
 				}
-				hvLap("cggmp puts")
 				h.ringPedersen(name, aux.RingPedersenSecretKey(), aux.RingPedersenPublicKeys())
 				var peerCK *intcom.CommitmentKey
 				for _, p := range peers {
@@ -625,11 +629,10 @@ func heavySamples(seed int64, tier string) []Sample {
 				if peerCK == nil {
 					peerCK = aux.RingPedersenSecretKey().Export()
 				}
-				hvLap("ringPedersen")
 				h.proofEnc(name, sk, peerCK)
-				hvLap("proofEnc")
-				h.proofFac(name, sk, peerCK)
-				hvLap("proofFac")
+				if h.thorough { // > 1 s with 3072-bit moduli
+					h.proofFac(name, sk, peerCK)
+				}
 			}
 		}
 	})
@@ -646,7 +649,6 @@ func heavySamples(seed int64, tier string) []Sample {
 	for i, s := range specs {
 		h.group("heavy-c16-"+s.flavour, func() {
 			k, err := hvC16Key(s.flavour, s.bits)
-			hvLap("hvC16Key")
 			if err != nil {
 				sampleError("paillier-secretkey", err)
 				return
@@ -659,7 +661,6 @@ func heavySamples(seed int64, tier string) []Sample {
 			if len(cts) > 1 {
 				h.structures(k.name(), k.sk, cts[1], nonces[1])
 			}
-			hvLap("c16 enc+structures")
 		})
 	}
 	return h.out
